@@ -7,3 +7,4 @@ import Shentu.Proofs.Tactics
 import Shentu.Proofs.BankLemmas
 import Shentu.Proofs.OracleLemmas
 import Shentu.Props.C14
+import Shentu.Props.C15
